@@ -78,6 +78,9 @@ def record(ctx: Ctx, templates: list, per_template: int, iters: int = 2, cache=N
             cfg.update(g2=ctx.rng.choice([1, 1, 2, 0]), l2=2 if t["algo"] == "REINFORCE" else ctx.rng.choice([1, 2, 0]),
                        H=t["H"], an=ctx.rng.choice([1, 2, 3, 4]))
             seed = ctx.rng.randrange(2 ** 31)
+            if j % 8 == 0:
+                from .core import relieve_jit
+                relieve_jit()
             trs = dop.record_onpolicy(cache, cfg, t["algo"], t["N"], iters, seed)
             for tr in trs:
                 if tr["meta"]["dones_so_far"] > 8:
